@@ -279,7 +279,8 @@ ADDED = {
            'threads parked before every chunk, released one at a time); the history read through one reused writable buffer.',
     'C16': 'Later additions: near-integer float ppd, 10^5-record files, empty column requests; NOT simulation but a '
            'configuration sweep of the compiled decoders: every record count 0..20000 (60000 thorough) plus samples up to '
-           '300000 x 1,2,3,4,8,16 numba threads against the single-thread decoding of the longest input.',
+           '300000 x 1,2,3,4,8,16 numba threads against the single-thread decoding of the longest input.  Storage fault '
+           'after the reads: the file is overwritten in place and every returned table must keep its values.',
     'C17': 'Later additions: complete (N 0..130 x nthread 1..16) sweep, weight dtype independent of the position dtype, the '
            'same arrays edited in place and partitioned again with identical arguments, array memory layouts.',
     'C19': 'Later additions: lengths 2^k-1, 2^k, 2^k+1 up to 2^20 (2^21 thorough) x flags x 1/3/16 numba threads, strided and '
